@@ -854,3 +854,69 @@ Definition loop_chans (l : loop) : list chan := match flatten l with w :: _ => w
 (* what the harness observes: to_waveform(program).get_sampled(channel, t) *)
 Definition sampled (l : loop) (c : chan) (t : Q) : option Q :=
   match to_waveform l with Ok w => get_sampled w c t | Err _ => None end.
+
+(* ---- the LoopBuilder's frame stack (loop.py: StackFrame.iterating, _push/_pop, inner_scope) ----
+   `cp` above is the functional form of the builder (DESIGN D3): a loop body is instantiated under RangeScope(scope, index,
+   value) and nothing else is remembered.  `cpb` mirrors the code's bookkeeping: a stack of frames, each carrying the
+   `iterating` entry (loop-index name, current value) or None;
+     with_sequence   pushes StackFrame(LoopGuard(top), None)                          (SequencePT, and first step of with_iteration)
+     with_repetition pushes StackFrame(repetition_loop, None)                         (RepetitionPT)
+     with_iteration  = with_sequence, then top_frame.iterating = (index, value) per value   (ForLoopPT)
+     time_reversed   a NEW LoopBuilder: stack = [StackFrame(root, None)]              (TimeReversalPT)
+     inner_scope(scope) = RangeScope(scope, *top.iterating) if the TOP frame iterates, else scope
+                          (called by RepetitionPT and ForLoopPT for their body, after pushing their own frame)
+   MappingPT / ParallelChannelPT / ArithmeticPT hand the builder on unchanged.  Proofs_builder.cpb_cp: the stack never
+   influences the result (cpb = cp); a repetition frame that inherits the enclosing `iterating` entry breaks exactly this. *)
+Definition frame := option (N * Z).
+Definition inner_scope (st : list frame) (s : scope) : scope :=
+  match st with Some (x, v) :: _ => SRange s x v | _ => s end.
+
+Fixpoint cpb (p : pt) (s : scope) (cm : chanmap) (gt : option trafo) (st : list frame) : result (list loop) :=
+  match p with
+  | PAtom a => w <- build_waveform a s cm ;; Ok (atomic_emit w gt)
+  | PSeq l =>
+      let st' := None :: st in
+      (fix go (l : list pt) : result (list loop) :=
+         match l with
+         | [] => Ok []
+         | x :: r => a <- cpb x s cm gt st' ;; b <- go r ;; Ok (a ++ b)
+         end) l
+  | PRep n body =>
+      v <- evals s n ;;
+      k <- to_int ENotInt v ;;
+      if (k <=? 0)%Z then Ok [] else
+      let st' := None :: st in
+      cs <- cpb body (inner_scope st' s) cm gt st' ;;
+      match cs with [] => Ok [] | _ => Ok [Nest k cs] end
+  | PFor idx e1 e2 e3 body =>
+      a <- (v <- evals s e1 ;; to_int EValue v) ;;
+      b <- (v <- evals s e2 ;; to_int EValue v) ;;
+      c <- (v <- evals s e3 ;; to_int EValue v) ;;
+      if (c =? 0)%Z then Err EValue else
+      (fix go (l : list Z) : result (list loop) :=
+         match l with
+         | [] => Ok []
+         | i :: r => let st' := Some (idx, i) :: st in
+                     x <- cpb body (inner_scope st' s) cm gt st' ;; y <- go r ;; Ok (x ++ y)
+         end) (zrange a b c)
+  | PMap pm chm body => cpb body (SMapped s pm (map_ids pm body)) (cm_compose cm chm) gt st
+  | PRev body =>
+      cs <- cpb body s cm gt [None] ;;
+      match cs with [] => Ok [] | _ => Ok [reverse_loop (Nest 1 cs)] end
+  | PPar body ow =>
+      vals <- par_values (lookup s) cm ow [] ;;
+      cpb body s cm (Some (match gt with Some g => g ++ [TOver vals] | None => [TOver vals] end)) st
+  | PArith lhs op scalar body =>
+      _ <- (if match scalar with
+                  | inl _ => true
+                  | inr l => existsb (fun ce => match cm (fst ce) with Some _ => true | None => false end) l
+                  end then scope_force s else Ok tt) ;;
+      tr <- arith_trafo (lookup s) cm lhs op scalar (pt_chans body) ;;
+      cpb body s cm (Some (chain tr gt)) st
+  end.
+
+(* create_program with the builder's initial stack [StackFrame(root, None)] *)
+Definition create_program_b (p : pt) (env : list (N * Q)) (cm : list (chan * option chan)) (gt : option trafo)
+  : result (option loop) :=
+  cs <- cpb p (SDict env) (cm_of cm) gt [None] ;;
+  match cs with [] => Ok None | _ => Ok (Some (Nest 1 cs)) end.
